@@ -355,3 +355,50 @@ Proof.
   rewrite E2. unfold lenN. rewrite Nat2N.id.
   rewrite firstn_app, firstn_all, Nat.sub_diag, firstn_O, app_nil_r. reflexivity.
 Qed.
+
+(* ---------------------------------------------------------------- the reusable buffer across typed queries *)
+(* self.buf is either the empty Vec (fresh after a take, or lost to a dropped future) or has room
+   for the configured size *)
+Definition tq_inv (bs : N) (st : N * N) : Prop :=
+  (fst st = 0 /\ snd st = 0) \/ (bs <= fst st /\ snd st <= fst st).
+
+Lemma tq_step_safe std bs st slack e : 0 < bs -> tq_inv bs st ->
+  match e with TqDone r => r <= bs | _ => True end ->
+  snd (tq_step std bs st slack e) = TqRan bs /\ tq_inv bs (fst (tq_step std bs st slack e)).
+Proof.
+  intros Hbs Hi He. destruct st as [cap len]. unfold tq_inv in *. cbn [fst snd] in Hi.
+  unfold tq_step, std_rrset_refuse, async_rrset_refuse, std_take_buf_grow, async_take_buf_grow,
+    std_take_buf_reserve_nounderflow, async_take_buf_reserve_nounderflow, std_take_buf_reserve, async_take_buf_reserve,
+    std_take_buf_len, async_take_buf_len, std_rrset_parse_len, async_rrset_parse_len.
+  destruct std;
+    (assert (E0 : (bs =? 0) = false) by lia; rewrite E0;
+     destruct (cap <? bs) eqn:Eg;
+     [assert (E1 : (cap <=? bs) = true) by lia; rewrite E1; cbn [negb andb];
+      destruct (bs - cap <=? cap - len) eqn:Er; [exfalso; lia|];
+      assert (E2 : (len + (bs - cap) + slack <? bs) = false) by lia; rewrite E2;
+      destruct e as [r| |]; cbn [fst snd];
+      [assert (E3 : (len + (bs - cap) + slack <? r) = false) by lia; rewrite E3; cbn [fst snd]; split; [reflexivity|right; lia]
+      |split; [reflexivity|right; lia]|split; [reflexivity|left; lia]]
+     |cbn [andb];
+      assert (E2 : (cap <? bs) = false) by lia; try rewrite E2;
+      destruct e as [r| |]; cbn [fst snd];
+      [assert (E3 : (cap <? r) = false) by lia; rewrite E3; cbn [fst snd]; split; [reflexivity|right; lia]
+      |split; [reflexivity|right; lia]|split; [reflexivity|left; lia]]]).
+Qed.
+
+(* every history of completed, failed and dropped typed queries: no query is refused, the unsafe
+   set_len is always within the capacity, and the raw query always gets a buffer of exactly the
+   configured size — whatever happened before *)
+Theorem tq_history_safe std bs : 0 < bs -> forall h st, tq_inv bs st ->
+  Forall (fun se => match snd se with TqDone r => r <= bs | _ => True end) h ->
+  Forall (fun o => o = TqRan bs) (tq_run std bs st h).
+Proof.
+  intros Hbs. induction h as [|[slack e] rest IH]; intros st Hi Hall; cbn [tq_run]; [constructor|].
+  inversion Hall as [|? ? He Hrest]; subst. cbn [snd] in He.
+  destruct (tq_step_safe std bs st slack e Hbs Hi He) as [Ho Hi'].
+  destruct (tq_step std bs st slack e) as [st' o]. cbn [fst snd] in *. constructor; [exact Ho|apply IH; assumption].
+Qed.
+
+(* the state Client::new leaves: Vec::with_capacity(buffer_size) *)
+Lemma tq_inv_new bs cap : bs <= cap -> tq_inv bs (cap, 0).
+Proof. intro H. right. cbn. lia. Qed.
